@@ -206,6 +206,7 @@ type Layout struct {
 	AnnGap      int    `json:"ann_gap"`      // blanks between element and annotation (1..n)
 	BlankLines  bool   `json:"blank_lines"`  // empty lines between members
 	PipeStyle   int    `json:"pipe_style"`   // 0 `@a | @b`  1 `@a|@b`  2 `@a| @b`  3 `@a |@b`
+	DashStyle   int    `json:"dash_style"`   // {rules} and note: 0 `{..} - note`  1 `{..}-note`  2 (/* */ only) `{..} -` NL `note`  3 (/* */ only) `{..}` NL `- note`
 }
 
 // DefaultLayout is the plain style used by the repository's own examples.
@@ -229,6 +230,7 @@ func RandLayout(rng *rand.Rand) Layout {
 		AnnGap:      1 + rng.IntN(3),
 		BlankLines:  rng.IntN(5) == 0,
 		PipeStyle:   []int{0, 0, 1, 2, 3}[rng.IntN(5)],
+		DashStyle:   []int{0, 0, 0, 1, 2, 3}[rng.IntN(6)],
 	}
 	return l
 }
@@ -385,7 +387,16 @@ func (p *printer) annotation(n *Node, level int) {
 	if n.HasRules || len(n.Rules) > 0 {
 		body = p.ruleObject(n.Rules, level, p.l.Multi && p.l.Spread)
 		if n.Note != "" {
-			body += " - " + n.Note
+			switch {
+			case p.l.DashStyle == 1:
+				body += "-" + n.Note
+			case p.l.DashStyle == 2 && p.l.Multi:
+				body += " -" + p.l.NL + strings.Repeat(p.l.Indent, level+1) + "     " + n.Note
+			case p.l.DashStyle == 3 && p.l.Multi:
+				body += p.l.NL + strings.Repeat(p.l.Indent, level+1) + "- " + n.Note
+			default:
+				body += " - " + n.Note
+			}
 		}
 	} else {
 		body = n.Note
@@ -463,6 +474,9 @@ func (p *printer) element(n *Node, level int, tail string, ownLine bool) {
 		}
 		p.indent(level)
 		p.sb.WriteString(close + tail)
+		if ownLine {
+			p.lineEndComment() // a comment may also follow the closing bracket (and its comma)
+		}
 	case KRef:
 		p.sb.WriteString(strings.Join(n.Refs, []string{" | ", "|", "| ", " |"}[p.l.PipeStyle%4]))
 		p.sb.WriteString(tail)
